@@ -71,9 +71,26 @@ def run(ctx):
         bad.sort(key=lambda x: (x[1] == 3, x[0]["dist"]["len"]))
         c, code, i, why, mon_ok = bad[0]
         obs = c["observed"]
+        # the different ways in which sessions fail, with the smallest example of each
+        kinds = {}
+        for bc, bcode, bi, bwhy, bmon in bad:
+            calls = [bc["input"]["new"]] + bc["input"]["calls"]
+            ck = calls[bi]["kind"] if bi < len(calls) else "?"
+            ob = bc["observed"][bi] if bi < len(bc["observed"]) else {}
+            first = (ob.get("panic") or "").split("\n")[0]
+            key = "%s at %s%s%s" % (CODES.get(bcode, "?"), "New" if bi == 0 else ck,
+                                    " (nil argument)" if bi < len(calls) and calls[bi].get("nil") else "",
+                                    ": " + first if first else "")
+            k = kinds.setdefault(key, dict(sessions=0, example=bc["id"], call=bi, input=compact(bc["input"])))
+            k["sessions"] += 1
+            for pi, po in enumerate(bc["observed"]):
+                if po.get("panic"):
+                    pk = "panic at %s: %s" % (calls[pi]["kind"] if pi < len(calls) else "?", po["panic"].split("\n")[0])
+                    k.setdefault("panics_in_these_sessions", {}).setdefault(pk, dict(sessions=0, example=bc["id"], call=pi, input=compact(bc["input"])))["sessions"] += 1
+                    break
         replay = dict(kind="builder-differs-from-specification", why=why, case=c["id"], input=c["input"], failing_call=i,
                       observed=obs[max(0, i - 1):i + 3], session_coq=c["coq"][:20000], failing_cases=len(bad),
-                      stickiness_monitor_on_observation=mon_ok, note=c.get("note", ""),
+                      stickiness_monitor_on_observation=mon_ok, note=c.get("note", ""), failure_kinds=kinds,
                       replay_cmd="VERIF_SEED=%s ./check C20 --tier %s   # case %s" % (ctx.seed, ctx.tier, c["id"]))
         if code == 3:
             replay["broken"] = "corr_ok: only the class of an error differs (classes are read off the error text)"
@@ -84,7 +101,8 @@ def run(ctx):
     ctx.evidence(dict(
         evaluations=calls,
         distinct_nontrivial=fw.distinct_nontrivial(cases),
-        rule="sessions = New + <=25 calls; families: 25% all-valid (valid prefix, Plan(), sometimes calls after it, sometimes Reset + second epoch), "
+        rule="sessions = New + <=25 calls; 105 sessions enumerated exhaustively whatever the seed (every ordered pair of check kinds at plan and at block level, "
+             "every kind of call at each of the 5 cursor positions, every invalid ChecksType at each position); then random families: 25% all-valid (valid prefix, Plan(), sometimes calls after it, sometimes Reset + second epoch), "
              "60% the same with ONE misuse of a uniformly chosen kind inserted at a uniformly chosen applicable position, 5% invalid New, "
              "10% unbiased random call streams; evaluations = calls executed on the real builder and compared; "
              "distinct = distinct (session, observation) terms; non-trivial = >=3 calls and (a misuse or an emitted plan of >=4 objects)",
